@@ -16,7 +16,7 @@
      one array through both routes (np.frombuffer is strict on a trailing partial element,
      np.fromfile drops it).
    path_secure is a parameter [norm] of the model (a Section variable); the theorems need it idempotent. *)
-From Coq Require Import List Bool String Ascii NArith Arith.
+From Coq Require Import List Bool String Ascii NArith ZArith Arith.
 From KV Require Import Eqb AL Str.
 From KV.Gen Require Import Ttar.
 Import ListNotations.
@@ -28,6 +28,18 @@ Definition bytes := string.
 Definition entry := (name * bytes)%type.
 Definition log := list entry.          (* archive members in file order *)
 Definition index := list entry.        (* AL: name -> bytes, insertion ordered (a Python dict) *)
+
+(* A member as it sits in a tar file also carries header fields.  kapture's index looks at the NAME only:
+   [strip] forgets the rest, and every reader-side definition below goes through it.  Members packed from
+   real files carry the file's mtime / mode / owner (tar -cf, tarfile.add); a member appended by
+   add_array_to_tar carries tarfile.TarInfo's defaults (mtime 0). *)
+Record hdr := { h_mtime : Z; h_mode : N; h_uid : N; h_pax : list (string * string) }.
+Definition member := (name * hdr * bytes)%type.
+Definition m_name (m : member) : name := fst (fst m).
+Definition m_hdr (m : member) : hdr := snd (fst m).
+Definition m_entry (m : member) : entry := (m_name m, snd m).
+Definition strip (ms : list member) : log := map m_entry ms.
+Definition hdr0 : hdr := {| h_mtime := 0; h_mode := 420; h_uid := 0; h_pax := [] |}.   (* TarInfo defaults, 0o644 *)
 
 (* ------------------------------------------------------------------ strings *)
 Definition lower_ascii (c : ascii) : ascii :=
@@ -142,6 +154,22 @@ Section Norm.
                 end
     end.
 
+  (* the same on members with headers: header fields are not looked at *)
+  Definition mview (ms : list member) : index := view (strip ms).
+  Definition mappend (ms : list member) (n : name) (b : bytes) : list member := ms ++ [(norm n, hdr0, b)].
+  (* NOT what kapture does — a tempting alternative kept to show what goes wrong: among members of one name keep
+     the one with the greatest modification time (ties: the later one) *)
+  Fixpoint put_by_mtime (m : list (name * (hdr * bytes))) (x : member) : list (name * (hdr * bytes)) :=
+    match m with
+    | [] => [(norm (m_name x), (m_hdr x, snd x))]
+    | (k, (h, b)) :: m' =>
+        if eqb (norm (m_name x)) k
+        then (if Z.leb (h_mtime h) (h_mtime (m_hdr x)) then (k, (m_hdr x, snd x)) else (k, (h, b))) :: m'
+        else (k, (h, b)) :: put_by_mtime m' x
+    end.
+  Definition view_by_mtime (ms : list member) : index :=
+    map (fun e => (fst e, snd (snd e))) (fold_left put_by_mtime ms []).
+
   (* the harness (or a user) packs a folder: one member per file, in any order, under any spelling of the
      relative path that path_secure maps back to it (e.g. "./a/b.kpt"); [pack] is the plainest choice *)
   Definition pack (dir : index) : log := dir.
@@ -223,7 +251,7 @@ Record store_case := {
   sc_norm : list (string * string);
   sc_kind : string;                          (* "Keypoints" | "Descriptors" | "GlobalFeatures" | "Matches" *)
   sc_files : index;                          (* loose feature files in the sub-folder *)
-  sc_tar : option log;                       (* file members of the archive, as packed *)
+  sc_tar : option (list member);             (* file members of the archive as packed, with their header fields *)
   sc_appends : log;                          (* then appended through kapture's API (mode 'a'), closed *)
   sc_handlers : bool;                        (* the reader passes get_all_tar_handlers(...) *)
   sc_known : option (list string);           (* images of records_camera; None = *_from_dir(images=None) *)
@@ -235,7 +263,7 @@ Record store_case := {
 
 Definition sc_store (c : store_case) : store :=
   {| s_files := sc_files c;
-     s_tar := option_map (fun l => l ++ map (nentry (tnorm (sc_norm c))) (sc_appends c)) (sc_tar c) |}.
+     s_tar := option_map (fun l => strip l ++ map (nentry (tnorm (sc_norm c))) (sc_appends c)) (sc_tar c) |}.
 
 Definition check_store (c : store_case) : bool :=
   let nm := tnorm (sc_norm c) in
@@ -254,7 +282,7 @@ Inductive ending := EKilled | EAlive | EClosed.
 
 Record append_case := {
   ac_norm : list (string * string);
-  ac_base : option log;                        (* file members of the archive before the writer opens it *)
+  ac_base : option (list member);              (* file members of the archive before the writer opens it *)
   ac_ops : log;                                (* add_array_to_tar calls, in order *)
   ac_obs : list (nat * ending * opened);       (* (appends completed, how the writer ended, what a fresh reader saw) *)
   ac_windex : list (nat * list name)           (* the appending handler's own index after k appends *)
@@ -272,11 +300,11 @@ Definition check_append (c : append_case) : bool :=
   tnorm_idem (ac_norm c)
   && forallb (fun o =>
        let '(k, e, seen) := o in
-       let w := run_appends nm true (open_append (ac_base c)) (firstn k (ac_ops c)) in
+       let w := run_appends nm true (open_append (option_map strip (ac_base c))) (firstn k (ac_ops c)) in
        opened_eqb (reader nm (match e with EClosed => close w | _ => kill w end)) seen) (ac_obs c)
   && forallb (fun o =>
        let '(k, ks) := o in
-       set_eqb (keys (apply_ops nm (view nm (odflt [] (ac_base c))) (firstn k (ac_ops c)))) ks) (ac_windex c).
+       set_eqb (keys (apply_ops nm (mview nm (odflt [] (ac_base c))) (firstn k (ac_ops c)))) ks) (ac_windex c).
 
 Inductive case1 := CStore (c : store_case) | CAppend (c : append_case).
 Definition case := list case1.
